@@ -1,9 +1,9 @@
 """C07 — selection protocols turn criteria into valid, correct cross configurations.
 Correspondence between Model/C07_Config.v (a composition of the C17 sampling model) and
-  * the five configuration classes' sample_xconfig (cfg/{Subset,Real,Integer,Binary,SubsetMate}SelectionConfiguration),
+  * the six configuration classes' sample_xconfig (cfg/{Subset,Real,Integer,Binary,SubsetMate,IntegerMate}SelectionConfiguration),
   * core/util/array.py triuix / triudix / xmapix,
-  * <Protocol>.select() of the Subset/Real/Integer/Binary/SubsetMate protocol bases through concrete protocols
-    (EBV, GEBV, OCS, Random, OHV, UC) with exact optimisers,
+  * <Protocol>.select() of the Subset/Real/Integer/Binary/SubsetMate/IntegerMate protocol bases through concrete protocols
+    (EBV, GEBV, OCS, Random, OHV, UC) with exact optimisers, and the protocols' nmating / nprogeny validation,
 plus the independent predicate (the property stated on the implementation's outputs)."""
 import copy, itertools, math, random as _pyrandom
 from fractions import Fraction
@@ -14,13 +14,15 @@ ID = "C07"
 PROPS = "Props/C07.v"
 IMPORTS = "From Coq Require Import PrimFloat.\nFrom PV Require Import Lib.Common Model.C17_Sampling Model.C07_Config."
 SHARD = 40
-LEVEL_TEXT = ("Coq theorems over an executable model that composes the (proved) C17 sampling model exactly as the five sample_xconfig "
+LEVEL_TEXT = ("Coq theorems over an executable model that composes the (proved) C17 sampling model exactly as the sample_xconfig "
               "methods do: for every decision vector, cross-design shape and every sequence of generator draws the configuration has "
               "ncross*nparent entries, contains only members of the chosen solution, uses a subset's / binary vector's members floor or "
-              "ceiling of t/k times, an integer vector's member i between q*x_i and q*x_i+min(x_i,r) times (exactly t*x_i/S when S divides t; "
-              "the 'within one of the proportional share' clause is refuted for integer vectors whose sum does not divide t), a real "
+              "ceiling of t/k times, an integer vector's member i (IntegerSelectionConfiguration) and an integer vector's candidate cross i "
+              "(IntegerMateSelectionConfiguration) floor or ceiling of t*x_i/sum(x) times for EVERY count vector, start and shuffle (integer "
+              "stochastic universal sampling; exactly t*x_i/S when S divides t), a real "
               "contribution vector's member floor or ceiling of t*x_i/sum(x) times (ideal pointers; binary64 pointers under the C17 cell "
-              "hypothesis), and is a 2-exchange local optimum of the self-pairing count after the final within-cross shuffle; triudix / "
+              "hypothesis), and is a 2-exchange local optimum of the self-pairing count after the final within-cross shuffle; every nmating / "
+              "nprogeny a selection protocol accepts at construction is accepted by the configuration select() builds; triudix / "
               "triuix enumerate exactly the strictly increasing / non-decreasing k-tuples below n in lexicographic order; the sorting "
               "optimiser returns a top-k set which minimises the summed criterion and commutes with relabelling under distinct criterion "
               "values; the multi-objective choice is the first argmax of ndset_wt * (declared transformation of the front). The model is "
@@ -33,18 +35,19 @@ LEVEL_NOTE = ("trusted: Coq kernel + vm_compute, PrimFloat primitives; the C17 m
               "protocols pass rng=None, finding C08-selcfg-global-rng) and recorded; theorems are about the Gallina model, the tie to the code is "
               "differential on generated inputs")
 TECHNIQUE = "Coq proof over an executable model (composition of the C17 model); in-Coq vm_compute correspondence with the implementation"
-RULE = ("case = (kind in {cfg, xmap, select}, arguments, draw script); one PRNG. cfg: class in {subset, real, integer, binary, mate}, "
+RULE = ("case = (kind in {cfg, xmap, select}, arguments, draw script); one PRNG. cfg: class in {subset, real, integer, binary, mate, imate}, "
         "ncross 1..5 x nparent 1..4, decision vectors with sizes 1..8 incl. fewer/equal/more members than slots, duplicates, zeros, sums "
         "that do / do not divide the slot count, bool/int32/int64 storage, scalar or array nmating/nprogeny, invalid shapes and dtypes; "
         "draw modes identity / reversal / random; a second sample_xconfig call; xmap: n 0..7, k 0..4, both generators and xmapix; select: "
-        "families EBV (4 encodings), GEBV, OCS, Random, OHV, UC, 3..8 taxa, 1..2 traits, ties and distinct criteria, nobj 1..2, weights of "
+        "families EBV (4 encodings), GEBV, OCS, Random, OHV (subset- and integer-mate), UC, 3..8 taxa, 1..2 traits, ties and distinct criteria, zero / negative / "
+        "wrong-length nmating and nprogeny (must be refused by the constructor), nobj 1..2, weights of "
         "both signs, sorting optimiser / sorting hill climber / brute-force exact stubs, default and harness transformations of the front, "
         "a relabelled second run; non-trivial = more candidates than slots filled by one member and a non-constant criterion / vector; "
         "distinct by SHA-256 of the case")
 TRUSTED = ["C17 model of the sampling utilities (checked by the C17 correspondence)",
            "numpy.argsort / argmax (first maximum) / repeat / fancy indexing semantics",
            "harness-side exact optimiser stubs (enumeration) are correct minimisers over their finite candidate lists",
-           "props.c07._Lazy: shuffle(x) with permutation pm sets x[i] = x[pm[i]]; choice returns a[ix]; uniform returns the recorded value"]
+           "props.c07._Lazy: shuffle(x) with permutation pm sets x[i] = x[pm[i]]; choice returns a[ix] (a scalar request choice(n) returns ix < n); uniform returns the recorded value"]
 ASSUMPTIONS = ["decision vectors as the configuration setters accept them (1-d, integer / binary / floating); real vectors non-negative with positive sum on a dyadic grid",
                "multi-objective scores are finite (no NaN in ndset_wt * ndset_trans(front))",
                "cross-map indices of mate configurations are non-negative"]
@@ -56,7 +59,7 @@ def _hx(x): return float(x).hex()
 
 # ================================================================== scripted generator producing draws on demand
 def _lazy(draw):
-    """a rngscript.Scripted whose answers are produced on demand (mode id / rev / rand from a seeded PRNG, or an explicit list
+    """a rngscript.Scripted whose answers are produced on demand (mode id / rev / rand / pair from a seeded PRNG, or an explicit list
     of offsets) and recorded in .used, so that the Coq model consumes exactly the draws the implementation consumed"""
     from rngscript import Scripted
     class _Lazy(Scripted):
@@ -78,7 +81,12 @@ def _lazy(draw):
             return p
         def shuffle(self, x, axis=0):
             n = len(x)
-            p = self._perm(n)
+            if self.mode == "pair":
+                # stable sort of the entries: equal individuals become neighbours, so whole crosses start out self-paired
+                # (the arrangement the outcross descent has to repair)
+                a = numpy.asarray(x)
+                p = sorted(range(n), key=lambda i: tuple(numpy.ravel(a[i]).tolist()))
+            else: p = self._perm(n)
             self._note(["shuffle", n, p])
             if n: x[...] = numpy.array(x)[numpy.array(p, dtype=int)]
         def permutation(self, x, axis=0):
@@ -89,7 +97,9 @@ def _lazy(draw):
             arr = numpy.arange(a) if isinstance(a, (int, numpy.integer)) else numpy.asarray(a)
             n = len(arr)
             sz = int(numpy.prod(size)) if size is not None else 1
-            if replace: ix = [self.r.randrange(n) for _ in range(sz)]
+            if n == 0 and sz > 0: raise ValueError("a must be a positive integer unless no samples are taken")
+            if size is None and self.mode in ("id", "rev"): ix = [0 if self.mode == "id" else n - 1]      # start of the integer sampling
+            elif replace: ix = [self.r.randrange(n) for _ in range(sz)]
             elif self.mode == "id": ix = list(range(sz))
             elif self.mode == "rev": ix = list(range(n - 1, n - 1 - sz, -1))
             else: ix = self.r.sample(range(n), sz)
@@ -145,7 +155,7 @@ class _patched_global:
 
 # ================================================================== generators
 def _draw(rng, mode=None):
-    return {"mode": mode or rng.choice(["rand", "rand", "rand", "id", "rev"]), "seed": rng.randrange(2 ** 30)}
+    return {"mode": mode or rng.choice(["rand", "rand", "rand", "id", "rev", "pair"]), "seed": rng.randrange(2 ** 30)}
 
 def _shape(rng):
     r = rng.random()
@@ -162,7 +172,7 @@ def _mat_par(rng, nc):
     return one(), one()
 
 def _cfg_case(rng, cls=None):
-    cls = cls or rng.choice(["subset", "subset", "real", "real", "integer", "integer", "binary", "mate", "mate"])
+    cls = cls or rng.choice(["subset", "subset", "real", "real", "integer", "integer", "integer", "binary", "mate", "mate", "imate"])
     nc, npar = _shape(rng)
     t = nc * npar
     ntaxa = rng.randint(max(2, npar), 8)
@@ -205,6 +215,21 @@ def _cfg_case(rng, cls=None):
         else: w = [0.0] * n; w[rng.randrange(n)] = rng.choice([1.0, 0.375])
         if sum(w) <= 0: w[rng.randrange(n)] = 1.0
         case["decn"] = [_hx(v) for v in w]; case["dtype"] = "float64"; case["wkind"] = kind
+    elif cls == "imate":
+        npar = case["nparent"]
+        uniq = rng.random() < 0.6 and npar <= ntaxa
+        combos = list(itertools.combinations(range(ntaxa), npar)) if uniq else list(itertools.combinations_with_replacement(range(ntaxa), npar))
+        if len(combos) > 12: combos = combos[:12]
+        if rng.random() < 0.15: rng.shuffle(combos)
+        case["xmap"] = [list(c) for c in combos]
+        n = len(combos); r = rng.random()
+        if r < 0.35:                                         # sum equals the number of crosses
+            x = [0] * n
+            for _ in range(nc): x[rng.randrange(n)] += 1
+        elif r < 0.6: x = [rng.choice([0, 0, 1, 2]) for _ in range(n)]
+        else: x = [rng.choice([0, 0, 1, 2, 3, 5]) for _ in range(n)]
+        if sum(x) == 0: x[rng.randrange(n)] = rng.randint(1, 3)
+        case["decn"] = x; case["dtype"] = rng.choice(["int64", "int64", "int32"])
     else:   # mate
         uniq = rng.random() < 0.6
         npar = case["nparent"]
@@ -220,6 +245,52 @@ def _cfg_case(rng, cls=None):
         case["decn"] = decn; case["dtype"] = "int64"
     return case
 
+REGIMES = ("single", "tiling", "exact", "more")
+
+def _cfg_grid_case(rng, cls, regime, nc, npar, mode):
+    """one configuration request of a systematic grid: every class x fill regime x nparent x ncross x draw mode.
+    All counts are 0/1 (distinct members, 0/1 count vectors, equal weights).  `regime` relates the number k of selected
+    entries to the number of slots t (individual-based classes: t = ncross*nparent; cross-based classes: t = ncross):
+    single: k = 1 (self-pairings unavoidable for nparent >= 2); tiling: 2k <= t (several whole copies of the pool, an
+    individual with count 1 appears several times); exact: k = t; more: k > t"""
+    cross_based = cls in ("mate", "imate")
+    t = nc if cross_based else nc * npar
+    if regime == "single": k = 1
+    elif regime == "tiling": k = max(1, t // rng.choice([2, 2, 3]))
+    elif regime == "exact": k = t
+    else: k = t + rng.randint(1, 3)
+    case = {"kind": "cfg", "cls": cls, "ncross": nc, "nparent": npar, "nmating": rng.randint(1, 3), "nprogeny": rng.randint(1, 3),
+            "draw": _draw(rng, mode), "ret2": rng.random() < 0.5, "grid": regime}
+    if cross_based:
+        ntaxa = max(npar, 3) + rng.randint(0, 2)
+        combos = list(itertools.combinations_with_replacement(range(ntaxa), npar)) if rng.random() < 0.5 else list(itertools.combinations(range(ntaxa), npar))
+        while len(combos) < k: ntaxa += 1; combos = list(itertools.combinations_with_replacement(range(ntaxa), npar))
+        if len(combos) > max(12, k + 2): combos = rng.sample(combos, max(12, k + 2)); combos.sort()
+        case["ntaxa"] = ntaxa; case["xmap"] = [list(c) for c in combos]
+        chosen = rng.sample(range(len(combos)), k)
+        if cls == "mate": case["decn"] = chosen; case["dtype"] = "int64"
+        else: case["decn"] = [1 if i in chosen else 0 for i in range(len(combos))]; case["dtype"] = rng.choice(["int64", "int32"])
+        return case
+    ntaxa = max(k + rng.randint(0, 3), npar, 2)
+    case["ntaxa"] = ntaxa
+    chosen = rng.sample(range(ntaxa), k)
+    if cls == "subset": case["decn"] = chosen; case["dtype"] = rng.choice(["int64", "int32"])
+    elif cls == "real": case["decn"] = [_hx(1.0 if i in chosen else 0.0) for i in range(ntaxa)]; case["dtype"] = "float64"; case["wkind"] = "grid01"
+    else:
+        case["decn"] = [1 if i in chosen else 0 for i in range(ntaxa)]
+        case["dtype"] = rng.choice(["int64", "bool", "int8"]) if cls == "binary" else rng.choice(["int64", "int32"])
+    return case
+
+def _cfg_grid(rng, tier):
+    out = []
+    for cls in ("subset", "integer", "binary", "real", "mate", "imate"):
+        for regime in REGIMES:
+            for npar in (1, 2, 3, 4):
+                for nc in ((1, rng.choice([2, 3])) if tier == "quick" else (1, 2, 3, 4)):
+                    modes = ("pair", rng.choice(["rand", "id", "rev"])) if tier == "quick" else ("pair", "rand", "id", "rev")
+                    for mode in modes: out.append(_cfg_grid_case(rng, cls, regime, nc, npar, mode))
+    return out
+
 def _cfg_error_cases(rng):
     """invalid arguments: both the model and the implementation must refuse (coarse: both fail)"""
     base = lambda **kw: dict({"kind": "cfg", "cls": "subset", "ncross": 2, "nparent": 2, "nmating": 1, "nprogeny": 1, "ntaxa": 5,
@@ -227,6 +298,10 @@ def _cfg_error_cases(rng):
     cs = [base(ncross=0), base(nparent=0), base(decn=[]), base(cls="integer", decn=[0, 0, 0, 0, 0]), base(cls="integer", decn=[2, -1, 3, 0, 0]),
           base(cls="binary", decn=[1, 2, 0, 1, 0]), base(cls="binary", decn=[0, 0, 0, 0, 0]),
           base(cls="mate", decn=[0, 9], xmap=[[0, 1], [0, 2], [1, 2]]), base(cls="mate", decn=[0, 1], xmap=[[0, 1, 2], [0, 2, 3]]),
+          base(cls="imate", decn=[0, 0, 0], xmap=[[0, 1], [0, 2], [1, 2]]), base(cls="imate", decn=[1, -1, 2], xmap=[[0, 1], [0, 2], [1, 2]]),
+          base(cls="imate", decn=[1, 0, 2], xmap=[[0, 1, 2], [0, 2, 3], [1, 2, 3]]), base(cls="imate", decn=[1, 0, 0, 2], xmap=[[0, 1], [0, 2], [1, 2]]),
+          base(cls="imate", decn=[1, 0, 2], xmap=[[0, 1], [0, 2], [1, 2]], ncross=0),
+          base(cls="integer", decn=[3, 3, 0, 0, 0], ncross=3, nparent=1), base(cls="imate", decn=[3, 3, 0], xmap=[[0, 1], [0, 2], [1, 2]], ncross=3),
           base(cls="subset", decn=[0, 1, 2, 3], dtype="float64"), base(cls="real", decn=[1, 0, 2, 1, 0], dtype="int64"),
           base(nmating=0), base(nprogeny=[1, 0]), base(nmating=[1, 1, 1]),
           base(cls="real", decn=[_hx(0.0)] * 5, dtype="float64")]
@@ -240,12 +315,12 @@ def _xmap_case(rng):
 
 FAMILIES = [("ebv", "subset"), ("ebv", "subset"), ("ebv", "subset"), ("ebv", "real"), ("ebv", "integer"), ("ebv", "binary"),
             ("gebv", "subset"), ("gebv", "binary"), ("ocs", "subset"), ("ocs", "real"), ("random", "subset"), ("random", "integer"),
-            ("ohv", "mate"), ("ohv", "mate"), ("uc", "mate")]
+            ("ohv", "mate"), ("ohv", "mate"), ("uc", "mate"), ("ohv", "imate")]
 
 def _select_case(rng, fam=None, enc=None, nobj=None, algo=None):
     if fam is None: fam, enc = rng.choice(FAMILIES)
-    mate = enc == "mate"
-    ntaxa = rng.randint(3, 6) if mate else rng.randint(3, 8)
+    mate = enc in ("mate", "imate")
+    ntaxa = (rng.randint(3, 4) if enc == "imate" else rng.randint(3, 6)) if mate else rng.randint(3, 8)
     if enc in ("real",): ntaxa = min(ntaxa, 6)
     if enc in ("integer",): ntaxa = min(ntaxa, 7)
     nvrnt = rng.randint(4, 6)
@@ -253,7 +328,7 @@ def _select_case(rng, fam=None, enc=None, nobj=None, algo=None):
     if fam == "ocs": ntrait = 1 if nobj == 2 else rng.choice([1, 2])
     elif nobj == 2: ntrait = 2
     else: ntrait = rng.choice([1, 1, 2])
-    npar = 2 if fam == "uc" else (rng.choice([2, 2, 3]) if mate else rng.choice([1, 2, 2, 2, 3]))
+    npar = 2 if fam == "uc" else (rng.choice([2, 2, 3]) if mate else rng.choice([1, 2, 2, 2, 3, 4]))
     if mate: npar = min(npar, ntaxa)
     if mate: nc = rng.randint(1, 3)
     elif enc == "subset" and fam != "random":
@@ -267,6 +342,10 @@ def _select_case(rng, fam=None, enc=None, nobj=None, algo=None):
         bv = [[cols[t][i] for t in range(ntrait)] for i in range(ntaxa)]
     u = [[rng.randint(-8, 8) for _ in range(ntrait)] for _ in range(nvrnt)]
     nm, npg = _mat_par(rng, nc)
+    if rng.random() < 0.06:                                   # cross-design parameters no configuration can carry: refused at construction
+        bad = rng.choice([0, 0, [rng.randint(1, 3) for _ in range(nc + 1)], [rng.randint(1, 3) for _ in range(nc - 1)], [0] * nc, -1])
+        if rng.random() < 0.5: nm = bad
+        else: npg = bad
     case = {"kind": "select", "family": fam, "enc": enc, "ntaxa": ntaxa, "nvrnt": nvrnt, "ntrait": ntrait, "gseed": rng.randrange(1000),
             "bv": bv, "u": u, "ncross": nc, "nparent": npar, "nmating": nm, "nprogeny": npg, "nobj": nobj, "draw": _draw(rng),
             "unscale": rng.random() < 0.7, "loc": [rng.randint(-16, 16) / 8.0 for _ in range(ntrait)], "scale": [rng.choice([1.0, 2.0, 0.5]) for _ in range(ntrait)],
@@ -282,7 +361,7 @@ def _select_case(rng, fam=None, enc=None, nobj=None, algo=None):
         case["ndset_wt"] = rng.choice([None, 1.0, -1.0, 0.5])
         if rng.random() < 0.3: case["front_order"] = "rev"
     if algo is None:
-        if enc in ("subset", "mate") and nobj == 1: algo = rng.choice(["sorting", "sorting", "sorting", "sortinghc", "stub", "hc"])
+        if enc in ("subset", "mate") and nobj == 1: algo = rng.choice(["sorting", "sorting", "sorting", "sortinghc", "stub", "hc"])   # (not imate)
         else: algo = "stub"
     case["algo"] = algo
     if mate: case["unique"] = rng.random() < 0.7 if fam == "ohv" else True
@@ -296,6 +375,12 @@ def _select_fixed():
          "u": [[1], [2], [-3], [4], [0]], "ncross": 2, "nparent": 2, "nmating": 1, "nprogeny": 3, "nobj": 1, "algo": "sorting",
          "draw": {"mode": "rand", "seed": 4}, "relabel": [5, 4, 3, 2, 1, 0], "miscout": True}
     v = lambda **kw: dict(copy.deepcopy(b), **kw)
+    one = [[-8], [-24], [-16], [40], [-1], [-32]]            # one candidate with a positive value: the exact optimum selects it alone
+    # two candidates, each best for one trait; all front points tie under the zero-weight transformation and the reversed front
+    # starts with the solution selecting both: fewer selected individuals (counts 0/1) than slots, whole copies of the pool
+    two = dict(ntrait=2, nobj=2, bv=[[40, 0], [0, 40], [1, 1], [2, 2], [3, 3], [0, 0]], u=[[1, 0], [2, 1], [-3, 2], [4, 0], [0, 1]],
+               ndset="wsum", ndset_w=[0.0, 0.0], front_order="rev")
+    pair = {"mode": "pair", "seed": 5}
     return [v(), v(obj_wt=-1.0), v(ncross=3, nparent=2), v(ncross=1, nparent=1), v(ncross=6, nparent=1, relabel=[1, 0, 3, 2, 5, 4]),
             v(bv=[[8], [8], [8], [8], [8], [8]]), v(bv=[[8], [24], [24], [24], [0], [32]]), v(miscout=False),
             v(enc="binary", algo="stub"), v(enc="integer", algo="stub"), v(enc="real", algo="stub"),
@@ -304,20 +389,31 @@ def _select_fixed():
               ndset="wsum", ndset_w=[1.0, 0.5], ndset_wt=-1.0),
             v(ntrait=2, nobj=2, bv=[[8, 1], [24, 2], [16, 5], [40, 0], [0, 9], [32, 3]], u=[[1, 0], [2, 1], [-3, 2], [4, 0], [0, 1]], algo="stub",
               ndset="wsum", ndset_w=[0.0, 0.0], front_order="rev"),
-            v(nmating=0), v(nprogeny=[3, 0]),
+            v(nmating=0), v(nprogeny=[3, 0]), v(nmating=[1, 1, 1]), v(nprogeny=[2]), v(nprogeny=0, enc="integer", algo="stub"),
+            v(nmating=[2, 0], family="ohv", enc="mate", unique=True), v(family="ohv", enc="imate", unique=True, algo="stub", ntaxa=4, bv=[[8], [24], [16], [40]]),
+            # protocol-level paths into the tiling / single-individual / pairing corners of every individual-based configuration
+            v(enc="binary", algo="stub", bv=one, draw=pair), v(enc="integer", algo="stub", bv=one, draw=pair), v(enc="real", algo="stub", bv=one, draw=pair),
+            v(enc="binary", algo="stub", bv=one, ncross=1, nparent=4), v(enc="integer", algo="stub", bv=one, ncross=3, nparent=3),
+            v(enc="binary", algo="stub", draw=pair, **two), v(enc="binary", algo="stub", draw=pair, ncross=3, **two), v(enc="integer", algo="stub", draw=pair, ncross=4, **two),
+            v(enc="real", algo="stub", draw=pair, ncross=3, **two), v(enc="binary", algo="stub", ncross=1, nparent=4, draw=pair, **two),
+            v(enc="binary", algo="stub", ncross=2, nparent=3, draw=pair, **two), v(enc="binary", algo="stub", ncross=2, nparent=1, **two),
+            v(enc="binary", algo="stub", draw={"mode": "id", "seed": 1}, **two), v(enc="binary", algo="stub", draw={"mode": "rev", "seed": 1}, **two),
+            v(family="random", ncross=3, nparent=2, draw=pair), v(family="random", ncross=2, nparent=1), v(family="random", ncross=1, nparent=4, ntaxa=8, bv=[[8 * i] for i in range(8)]),
+            v(ncross=1, nparent=2, draw=pair), v(ncross=1, nparent=4, draw=pair), v(ncross=2, nparent=3, draw=pair), v(ncross=1, nparent=3),
             v(family="ohv", enc="mate", unique=False), v(family="ohv", enc="mate", unique=True, nparent=3, ncross=2), v(family="uc", enc="mate", unique=True)]
 
 def gen_cases(rng, tier):
     q = tier == "quick"
     cases = []
     cases += _cfg_error_cases(rng)
+    cases += _cfg_grid(rng, tier)
     cases += _select_fixed()
     for fam, enc in sorted(set(FAMILIES)):
         for nobj in (1, 2):
             for _ in range(2 if q else 40): cases.append(_select_case(rng, fam, enc, nobj))
     for _ in range(60 if q else 1200): cases.append(_select_case(rng))
     for _ in range(2 if q else 30): cases.append(_select_case(rng, "ebv", "subset", 1, "ga"))
-    for cls in ("subset", "real", "integer", "binary", "mate"):
+    for cls in ("subset", "real", "integer", "binary", "mate", "imate"):
         for _ in range(12 if q else 200): cases.append(_cfg_case(rng, cls))
     for _ in range(90 if q else 1500): cases.append(_cfg_case(rng))
     seen = set()
@@ -344,14 +440,15 @@ def _run_cfg(case):
     from pybrops.breed.prot.sel.cfg.IntegerSelectionConfiguration import IntegerSelectionConfiguration
     from pybrops.breed.prot.sel.cfg.BinarySelectionConfiguration import BinarySelectionConfiguration
     from pybrops.breed.prot.sel.cfg.SubsetMateSelectionConfiguration import SubsetMateSelectionConfiguration
+    from pybrops.breed.prot.sel.cfg.IntegerMateSelectionConfiguration import IntegerMateSelectionConfiguration
     C = {"subset": SubsetSelectionConfiguration, "real": RealSelectionConfiguration, "integer": IntegerSelectionConfiguration,
-         "binary": BinarySelectionConfiguration, "mate": SubsetMateSelectionConfiguration}[case["cls"]]
+         "binary": BinarySelectionConfiguration, "mate": SubsetMateSelectionConfiguration, "imate": IntegerMateSelectionConfiguration}[case["cls"]]
     pg = _pgmat(case["ntaxa"])
     if case["dtype"] == "float64": decn = numpy.array([_fh(h) if isinstance(h, str) else float(h) for h in case["decn"]], dtype=float)
     else: decn = numpy.array(case["decn"], dtype=case["dtype"])
     decn0 = decn.copy()
     kw = {}
-    if case["cls"] == "mate":
+    if case["cls"] in ("mate", "imate"):
         xm = numpy.array(case["xmap"], dtype="int64"); kw["xconfig_xmap"] = xm; xm0 = xm.copy()
     rng = _lazy(case["draw"])
     out = {}
@@ -374,7 +471,7 @@ def _run_cfg(case):
         out["second"] = {"xconfig": x2.tolist(), "ret_none": r is None, "ret_is_xconfig": (r is c.xconfig) if r is not None else None,
                          "draws": rng.used, "fresh": x2 is not x}
         out["decn_same2"] = bool(numpy.array_equal(decn, decn0))
-        if case["cls"] == "mate": out["xmap_same"] = bool(numpy.array_equal(xm, xm0)) and (c.xconfig_xmap is xm)
+        if case["cls"] in ("mate", "imate"): out["xmap_same"] = bool(numpy.array_equal(xm, xm0)) and (c.xconfig_xmap is xm)
     except Exception as e:
         out["raised"] = type(e).__name__; out["msg"] = str(e)[:200]; out["draws_partial"] = rng.used
     return out
@@ -453,7 +550,7 @@ def _candidates(enc, prob, case):
         return [numpy.array(c, dtype="int64") for c in combos]
     n = int(prob.ndecn)
     if enc == "binary": vals = [0, 1]
-    elif enc == "integer": vals = [0, 1, 2] if n <= 6 else [0, 1]
+    elif enc in ("integer", "imate"): vals = [0, 1, 2] if n <= 6 else [0, 1]
     else: vals = [0.0, 0.25, 0.5, 1.0] if n <= 5 else [0.0, 0.5, 1.0]
     out = []
     for t in itertools.product(vals, repeat=n):
@@ -476,7 +573,7 @@ def _stub_algo(enc, case):
     from pybrops.opt.soln.BinarySolution import BinarySolution
     base, Soln = {"subset": (SubsetOptimizationAlgorithm, SubsetSolution), "mate": (SubsetOptimizationAlgorithm, SubsetSolution),
                   "real": (RealOptimizationAlgorithm, RealSolution), "integer": (IntegerOptimizationAlgorithm, IntegerSolution),
-                  "binary": (BinaryOptimizationAlgorithm, BinarySolution)}[enc]
+                  "binary": (BinaryOptimizationAlgorithm, BinarySolution), "imate": (IntegerOptimizationAlgorithm, IntegerSolution)}[enc]
     class Stub(base):
         def __init__(self): self.ncalls = 0
         def minimize(self, prob, miscout=None, **kwargs):
@@ -524,7 +621,7 @@ def _make_protocol(case, enc_algo_rng=None):
         so = SubsetGeneticAlgorithm(ngen=6, pop_size=12, rng=numpy.random.Generator(numpy.random.PCG64(case["draw"]["seed"])))
     else: so = _stub_algo(enc, case)
     kw["soalgo"] = so; kw["moalgo"] = _stub_algo(enc, case)
-    sfx = {"subset": "Subset", "real": "Real", "integer": "Integer", "binary": "Binary", "mate": "Subset"}[enc]
+    sfx = {"subset": "Subset", "real": "Real", "integer": "Integer", "binary": "Binary", "mate": "Subset", "imate": "Integer"}[enc]
     if fam == "ebv":
         import pybrops.breed.prot.sel.EstimatedBreedingValueSelection as Mod
         P = getattr(Mod, "EstimatedBreedingValue%sSelection" % sfx); kw.update(ntrait=case["ntrait"], unscale=case.get("unscale", True))
@@ -551,15 +648,20 @@ def _make_protocol(case, enc_algo_rng=None):
     else: raise ValueError(fam)
     return P(**kw), so
 
-def _select_once(case, perm=None, with_crit=True):
+def _select_once(case, perm=None, with_crit=True, stage=None):
+    """`stage` (a list) receives the step reached: "construct" (the protocol's constructor), "select", "done" """
+    stage = [] if stage is None else stage
     pg, bv, gm = _population(case, perm)
     rng = _lazy(case["draw"])
     out = {}
     with _patched_global(rng):
+        stage.append("construct")
         prot, so = _make_protocol(case)
         misc = {} if case.get("miscout", True) else None
         args = dict(pgmat=pg, gmat=pg, ptdf=None, bvmat=bv, gpmod=gm, t_cur=0, t_max=1)
+        stage.append("select")
         cfg = prot.select(miscout=misc, **args)
+        stage.append("done")
         out["draws"] = rng.used; rng.used = []
         x = numpy.asarray(cfg.xconfig)
         out["xconfig"] = x.tolist(); out["shape"] = list(x.shape); out["dtype"] = str(x.dtype)
@@ -599,12 +701,13 @@ def _select_once(case, perm=None, with_crit=True):
     return out
 
 def _run_select(case):
-    out = {}
+    out = {}; stage = []
     try:
-        out.update(_select_once(case))
+        out.update(_select_once(case, stage=stage))
     except Exception as e:
         import traceback
         out["raised"] = type(e).__name__; out["msg"] = str(e)[:300]; out["tb"] = traceback.format_exc()[-600:]
+        out["stage"] = stage[-1] if stage else "population"
         return out
     if case.get("relabel"):
         try:
@@ -628,7 +731,19 @@ def _split_draws(draws, first):
 def _cfg_term(cls, nc, npar, decn, draws, order=None, xmap=None, dvar=None):
     """(Coq term computing the model's xconfig : option (list Z) | option (list (list Z)), side condition text) or None"""
     t = nc * npar
-    if cls in ("subset", "integer", "binary"):
+    if cls == "integer":
+        # start = rng.choice(noption); rng.shuffle(out); then the shared tail
+        sp = _split_draws(draws, "choice")
+        if sp is None or any(v < 0 for v in decn): return None
+        ch, sh, pms = sp
+        if ch[1] != sum(decn) or ch[2] is not None or ch[4] is not False or len(ch[5]) != 1 or sh[1] != t: return None
+        return "(cfg_integer %s %s %s %s %s %s)" % (E.nat(nc), E.nat(npar), dvar or _zl(decn), E.nat(ch[5][0]), _nl(sh[2]), _nll(pms))
+    if cls == "imate":
+        if len(draws) != 2 or draws[0][0] != "choice" or draws[1][0] != "shuffle" or any(v < 0 for v in decn): return None
+        ch, sh = draws
+        if ch[1] != sum(decn) or ch[2] is not None or ch[4] is not False or len(ch[5]) != 1 or sh[1] != nc: return None
+        return "(cfg_integer_mate %s %s %s %s %s %s)" % (E.nat(nc), E.nat(npar), dvar or _zl(decn), E.lst(xmap, _zl), E.nat(ch[5][0]), _nl(sh[2]))
+    if cls in ("subset", "binary"):
         sp = _split_draws(draws, "choice")
         if sp is None: return None
         ch, sh, pms = sp
@@ -638,7 +753,7 @@ def _cfg_term(cls, nc, npar, decn, draws, order=None, xmap=None, dvar=None):
             nopt = sum(decn)
         re = (t % nopt) if nopt else 0
         if ch[1] != nopt or ch[2] != re or ch[3] is not False or ch[4] is not False or sh[1] != t: return None
-        fn = {"subset": "cfg_subset", "integer": "cfg_integer", "binary": "cfg_binary"}[cls]
+        fn = {"subset": "cfg_subset", "binary": "cfg_binary"}[cls]
         return "(%s %s %s %s %s %s %s)" % (fn, E.nat(nc), E.nat(npar), dvar or _zl(decn), _nl(ch[5]), _nl(sh[2]), _nll(pms))
     if cls == "real":
         sp = _split_draws(draws, "uniform")
@@ -666,24 +781,31 @@ def _emit_cfg(case, out):
     if "raised" in out:
         # both fail: the model with the draws consumed so far (completed by nothing) must not produce a configuration
         if (cls == "real") != (case["dtype"] == "float64") or (cls != "real" and case["dtype"] == "float64"): return None   # dtype checks: predicate only
-        if not (isinstance(case["nmating"], int) and case["nmating"] > 0 and isinstance(case["nprogeny"], int) and case["nprogeny"] > 0): return None
+        if not (isinstance(case["nmating"], int) and case["nmating"] > 0 and isinstance(case["nprogeny"], int) and case["nprogeny"] > 0):
+            # (also reached by valid array-valued parameters: then the model's argument check must pass and nothing is claimed here)
+            ok = _cfg_invalid(dict(case, decn=[0], dtype="int64", cls="subset")) is None
+            return "(Bool.eqb (cfg_args_ok %s %s %s %s) %s)" % (E.nat(nc), E.nat(npar), _matpar(case["nmating"]), _matpar(case["nprogeny"]), E.b(ok))
         if cls == "real":
             if sum(decn) > 0: return "false"
             return None                                                             # an all-zero contribution vector: predicate only
-        fn = {"subset": "cfg_subset", "integer": "cfg_integer", "binary": "cfg_binary", "mate": "cfg_mate"}[cls]
+        t = nc * npar
+        if cls == "integer":                                   # no start and no shuffle make the model produce a configuration
+            return "(forallb (fun st => ozl_eqb (cfg_integer %s %s %s st %s []) None) (seq 0 %s))" % (E.nat(nc), E.nat(npar), _zl(decn), _nl(range(t)), E.nat(max(1, sum(v for v in decn if v > 0))))
+        if cls == "imate":
+            return "(forallb (fun st => ozll_eqb (cfg_integer_mate %s %s %s %s st %s) None) (seq 0 %s))" % (E.nat(nc), E.nat(npar), _zl(decn), E.lst(case["xmap"], _zl), _nl(range(nc)), E.nat(max(1, sum(v for v in decn if v > 0))))
+        fn = {"subset": "cfg_subset", "binary": "cfg_binary", "mate": "cfg_mate"}[cls]
         if cls == "mate":
             return "(ozll_eqb (cfg_mate %s %s %s %s [] %s %s) None)" % (E.nat(nc), E.nat(npar), _zl(decn), E.lst(case["xmap"], _zl),
                                                                          _nl(range(nc)), _nl(range(nc)))
-        t = nc * npar
         return "(ozl_eqb (%s %s %s %s [] %s []) None)" % (fn, E.nat(nc), E.nat(npar), _zl(decn), _nl(range(t)))
-    parts = []
+    parts = ["cfg_args_ok %s %s %s %s" % (E.nat(nc), E.nat(npar), _matpar(case["nmating"]), _matpar(case["nprogeny"]))]
     for which, xc, draws in (("first", out["xconfig"], out["draws"]), ("second", out["second"]["xconfig"], out["second"]["draws"])):
         tm = _cfg_term(cls, nc, npar, decn, draws, out.get("order"), case.get("xmap"))
         if tm is None: return "false"
         if cls == "real":
             core, side = tm
             parts.append("ozl_eqb %s (Some %s)" % (core, _zl(_flat(xc)))); parts.append(side)
-        elif cls == "mate":
+        elif cls in ("mate", "imate"):
             parts.append("ozll_eqb %s (Some %s)" % (tm, E.lst(xc, _zl)))
         else:
             parts.append("ozl_eqb %s (Some %s)" % (tm, _zl(_flat(xc))))
@@ -712,9 +834,15 @@ def _crit_ints(hs):
     for f in fr: den = max(den, f.denominator)
     return [int(f * den) for f in fr]
 
+def _matpar(v):
+    return "(MScalar %s)" % E.z(v) if isinstance(v, int) else "(MArray %s)" % _zl(v)
+
 def _emit_select(case, out):
     enc = case["enc"]; nc, npar = case["ncross"], case["nparent"]
-    if "raised" in out: return None                                   # refusals are judged by the predicate
+    args_ok = "proto_args_ok %s %s %s %s" % (E.nat(nc), E.nat(npar), _matpar(case["nmating"]), _matpar(case["nprogeny"]))
+    if "raised" in out:
+        # the constructor refuses exactly the cross-design parameters the model refuses; other refusals are judged by the predicate
+        return "(Bool.eqb (%s) %s)" % (args_ok, E.b(out.get("stage") != "construct"))
     if out["shape"] != [nc, npar]: return "false"
     real = enc == "real"
     decn = [_fh(h) for h in out["decn"]] if real else [int(v) for v in out["decn"]]
@@ -724,11 +852,12 @@ def _emit_select(case, out):
     while cdraws and cdraws[0][0] in ("mvnormal", "normal"): cdraws.pop(0)
     tm = _cfg_term(enc, nc, npar, decn, cdraws, out.get("order"), out.get("xmap"))
     if tm is None: return "false"
-    parts = []
+    parts = [args_ok]
     if real: core, side = tm; parts.append(side)
     else: core = tm
-    want_xc = E.lst(xc, _zl) if enc == "mate" else _zl(_flat(xc))
-    eqx = "ozll_eqb" if enc == "mate" else "ozl_eqb"
+    matelike = enc in ("mate", "imate")
+    want_xc = E.lst(xc, _zl) if matelike else _zl(_flat(xc))
+    eqx = "ozll_eqb" if matelike else "ozl_eqb"
     soln = out.get("soln_decn")
     if case["nobj"] == 1:
         parts.append("%s %s (Some %s)" % (eqx, core, want_xc))
@@ -757,7 +886,7 @@ def _emit_select(case, out):
             tmd = _cfg_term(enc, nc, npar, decn, cdraws, out.get("order"), out.get("xmap"), dvar="d")
             fcfg = "(fun d => %s)" % (tmd[0] if real else tmd)
             deq = "fl_eqb7 d %s" % lit if real else "zl_eqb d %s" % lit
-            ceq = ("zll_eqb c %s" if enc == "mate" else "zl_eqb c %s") % want_xc
+            ceq = ("zll_eqb c %s" if matelike else "zl_eqb c %s") % want_xc
             parts.append("match select_mo %s (fun _ => %s) %s %s %s with Some (d, c) => %s && %s | None => false end"
                          % (E.q(F(_fh(out["ndset_wt"]))), E.lst(tv, lambda v: E.q(F(v))), front, decns, fcfg, deq, ceq))
     return "(" + "\n  && ".join(parts) + ")"
@@ -787,6 +916,21 @@ def _valid_cfg(cls, nc, npar, decn, xc, xmap=None, strict_real=True):
     if len(xc) != nc or any(len(r) != npar for r in xc):
         return ["configuration has shape %r, requested (%d,%d)" % ([len(xc), len(xc[0]) if xc else 0], nc, npar)]
     flat = _flat(xc)
+    if cls == "imate":
+        # integer vector over the candidate crosses of the map: cross d is used within one of its proportional share nc*x_d/sum(x)
+        rows = [tuple(r) for r in xc]
+        S = sum(decn); share = {}
+        for d, x in enumerate(decn):
+            if x > 0: share[tuple(xmap[d])] = share.get(tuple(xmap[d]), 0) + F(nc * x, S)
+        for r in rows:
+            if r not in share: bad.append("cross %r is not a candidate cross with a positive count in the chosen solution" % (list(r),)); break
+        for c, sh in share.items():
+            n = rows.count(c)
+            if abs(n - sh) > 1: bad.append("candidate cross %r used %d times, more than one away from its proportional share %s" % (list(c), n, sh)); break
+        if S == nc:
+            for c, sh in share.items():
+                if rows.count(c) != sh: bad.append("candidate cross %r used %d times, the solution dictates %s" % (list(c), rows.count(c), sh)); break
+        return bad
     if cls == "mate":
         rows = [tuple(r) for r in xc]
         chosen = [tuple(xmap[d]) for d in decn]
@@ -850,13 +994,17 @@ def _cfg_invalid(case):
     if cls == "real":
         w = [_fh(h) if isinstance(h, str) else float(h) for h in d]
         if any(x < 0 for x in w) or sum(w) <= 0: return "weights"
-    if cls in ("integer", "binary"):
+    if cls in ("integer", "binary", "imate"):
         if any(x < 0 for x in d) or sum(d) <= 0: return "counts"
         if cls == "binary" and any(x not in (0, 1) for x in d): return "not binary"
     if cls == "mate":
         xm = case["xmap"]
         if any(len(r) != npar for r in xm): return "xmap width"
         if any(not (0 <= x < len(xm)) for x in d): return "xmap index"
+    if cls == "imate":
+        xm = case["xmap"]
+        if any(len(r) != npar for r in xm): return "xmap width"
+        if len(d) != len(xm): return "xmap length"
     return None
 
 def _pred_cfg(case, out):
@@ -879,7 +1027,7 @@ def _pred_cfg(case, out):
     if not out["pgmat_same"]: bad.append("pgmat is not the candidate population handed in")
     if not out["decn_same"] or not out["decn_same2"]: bad.append("xconfig_decn is not the chosen decision (replaced or modified)")
     if not out["rng_same"]: bad.append("the configuration does not keep the generator it was given")
-    if cls == "mate" and not out.get("xmap_same", True): bad.append("cross map replaced or modified")
+    if cls in ("mate", "imate") and not out.get("xmap_same", True): bad.append("cross map replaced or modified")
     for which, xc in (("", out["xconfig"]), ("second sample: ", out["second"]["xconfig"])):
         for b in _valid_cfg(cls, nc, npar, decn, xc, case.get("xmap")): bad.append(which + b)
     sec = out["second"]
@@ -917,15 +1065,24 @@ ADDITIVE = ("ebv", "gebv", "random", "ohv", "uc")
 def _pred_select(case, out):
     bad = []
     enc = case["enc"]; nc, npar = case["ncross"], case["nparent"]; fam = case["family"]
-    nm_ok = all((v > 0 if isinstance(v, int) else all(x > 0 for x in v)) for v in (case["nmating"], case["nprogeny"]))
+    inv = None                                                         # cross-design parameters no configuration can carry
+    for key in ("nmating", "nprogeny"):
+        v = case[key]
+        if (v <= 0) if isinstance(v, int) else (len(v) != nc or any(x <= 0 for x in v)): inv = inv or key
     k_need = {"subset": npar if fam == "random" else nc * npar, "mate": nc}.get(enc)
     nspace = None
     if enc == "subset": nspace = case["ntaxa"]
     if enc == "mate":
         nspace = len(list(itertools.combinations(range(case["ntaxa"]), npar) if case.get("unique", True) else itertools.combinations_with_replacement(range(case["ntaxa"]), npar)))
+    if "raised" in out and inv is not None:
+        # an impossible cross design must be refused when the protocol is built, not after the optimisation has run
+        if out.get("stage") == "construct": return []
+        return ["the protocol accepted %s=%r at construction; select() ran the optimisation and then raised %s: %s"
+                % (inv, case[inv], out["raised"], out["msg"][:120])]
     if "raised" in out:
         if k_need is not None and nspace is not None and k_need > nspace: return []      # more members requested than candidates exist
         return ["%s %s select() raised %s: %s" % (fam, enc, out["raised"], out["msg"][:160])]
+    if inv is not None: bad.append("invalid request (%s=%r) was accepted" % (inv, case[inv]))
     if k_need is not None and nspace is not None and k_need > nspace:
         bad.append("a subset of %d members was selected from %d candidates" % (k_need, nspace))
     real = enc == "real"
@@ -938,7 +1095,7 @@ def _pred_select(case, out):
         if out[key] != want: bad.append("%s of the configuration is %r, the protocol was built with %r" % (key, out[key], want))
     if not out["pgmat_same"]: bad.append("configuration's pgmat is not the candidate population handed to select()")
     want_cls = {"subset": "SubsetSelectionConfiguration", "real": "RealSelectionConfiguration", "integer": "IntegerSelectionConfiguration",
-                "binary": "BinarySelectionConfiguration", "mate": "SubsetMateSelectionConfiguration"}[enc]
+                "binary": "BinarySelectionConfiguration", "mate": "SubsetMateSelectionConfiguration", "imate": "IntegerMateSelectionConfiguration"}[enc]
     if out["cfg_class"] != want_cls: bad.append("configuration class %s, expected %s" % (out["cfg_class"], want_cls))
     if not out["draws"]: bad.append("the configuration was sampled without consulting the (global) generator")
     # --- the solution and the choice among solutions
@@ -960,15 +1117,16 @@ def _pred_select(case, out):
                                    % (got, [float(sc[i]) for i in got], ix, float(sc[ix])))
                 want_wt = 1.0 if case.get("ndset_wt") is None else case["ndset_wt"]
                 if _fh(out["ndset_wt"]) != want_wt: bad.append("ndset_wt %r differs from the declared %r" % (_fh(out["ndset_wt"]), want_wt))
-            if enc == "mate" and not out.get("soln_xmap_same", True): bad.append("configuration's cross map differs from the solution's")
+            if enc in ("mate", "imate") and not out.get("soln_xmap_same", True): bad.append("configuration's cross map differs from the solution's")
     # --- configuration clauses relative to the chosen decision
     xmap = out.get("xmap")
-    if enc == "mate":
+    if enc in ("mate", "imate"):
         uniq = case.get("unique", True)
         want = [list(c) for c in (itertools.combinations(range(case["ntaxa"]), npar) if uniq else itertools.combinations_with_replacement(range(case["ntaxa"]), npar))]
         if xmap != want: bad.append("cross map is not the lexicographic list of %s %d-tuples of candidates" % ("strictly increasing" if uniq else "non-decreasing", npar))
-        if any(not (0 <= d < len(xmap)) for d in decn): bad.append("decision refers to a cross outside the map"); return bad
-    if enc in ("integer", "binary") and (any(v < 0 for v in decn) or sum(decn) <= 0): return bad + ["degenerate integer decision %r" % decn]
+        if enc == "mate" and any(not (0 <= d < len(xmap)) for d in decn): bad.append("decision refers to a cross outside the map"); return bad
+        if enc == "imate" and len(decn) != len(xmap): bad.append("decision vector does not have one count per candidate cross"); return bad
+    if enc in ("integer", "binary", "imate") and (any(v < 0 for v in decn) or sum(decn) <= 0): return bad + ["degenerate integer decision %r" % decn]
     if real and (any(v < 0 for v in decn) or sum(decn) <= 0): return bad + ["degenerate contribution vector"]
     if enc in ("subset", "mate") and len(set(decn)) != len(decn) and case["algo"] != "hc": bad.append("chosen solution %r repeats a member" % decn)
     if enc == "subset" and any(not (0 <= d < case["ntaxa"]) for d in decn): bad.append("chosen solution refers to a non-candidate")
@@ -1009,21 +1167,17 @@ def _pred_select(case, out):
                 if not all(close(a, b) for a, b in zip(vals2, chosen)): bad.append("relabelled run chose crosses with other criterion values")
                 if distinct:
                     if sorted(orig(d2) for d2 in rl["decn"]) != mine: bad.append("relabelled run chose crosses %r, original run %r" % (sorted(orig(d2) for d2 in rl["decn"]), mine))
+    rl0 = out.get("relabel")
+    if rl0 and rl0.get("xconfig") and enc not in ("mate", "imate"):
+        lo = _local_opt(rl0["xconfig"])
+        if lo: bad.append("relabelled run: " + lo)
     if out.get("post_draws"): bad.append("draws after select() returned")
     return bad
 
 # ================================================================== findings, evidence
 def classify(case, out, clauses):
-    if not clauses: return None
-    enc = case.get("cls", case.get("enc"))
-    if enc == "integer" and all("proportional share" in c for c in clauses) and "raised" not in out:
-        d = case["decn"] if case["kind"] == "cfg" else out["decn"]
-        t = case["ncross"] * case["nparent"]; S = sum(d)
-        if S > 0 and t % S != 0 and max(d) >= 2: return "C07-integer-share"
-    if case["kind"] == "select" and "raised" in out and out["raised"] == "ValueError" and ("nmating" in out["msg"] or "nprogeny" in out["msg"]):
-        z = lambda v: (v == 0) if isinstance(v, int) else any(x == 0 for x in v)
-        neg = lambda v: (v < 0) if isinstance(v, int) else any(x < 0 for x in v)
-        if (z(case["nmating"]) or z(case["nprogeny"])) and not (neg(case["nmating"]) or neg(case["nprogeny"])): return "C07-zero-mating-late"
+    """no finding of this property is open: C07-integer-share, C07-integer-mate-share, C07-zero-mating-late and
+    C07-mating-shape-late are repaired (status fixed: their witnesses are re-run on every check and must pass)"""
     return None
 
 def nontrivial(case, out):
@@ -1041,7 +1195,8 @@ def describe(case, out):
     d = {"kind": case["kind"], "raised": out.get("raised", out.get("exc", "no"))}
     if case["kind"] == "cfg":
         t = case["ncross"] * case["nparent"]
-        d.update({"cls": case["cls"], "nparent": case["nparent"], "ncross": min(case["ncross"], 4), "dtype": case["dtype"], "draws": case["draw"]["mode"]})
+        d.update({"cls": case["cls"], "nparent": case["nparent"], "ncross": min(case["ncross"], 4), "dtype": case["dtype"], "draws": case["draw"]["mode"],
+                  "grid": case.get("grid", "-"), "selfpaired_final": "n/a" if ("raised" in out or case["cls"] in ("mate", "imate")) else str(min(_score(out["xconfig"]), 3))})
     elif case["kind"] == "select":
         d.update({"family": case["family"], "enc": case["enc"], "nobj": case["nobj"], "algo": case["algo"], "relabel": bool(case.get("relabel")),
                   "ndset": case.get("ndset", "n/a"), "ties": len(set(map(tuple, case["bv"]))) < len(case["bv"])})
